@@ -165,21 +165,23 @@ class Ctx:
         return info
 
     # ------------------------------------------------------------------ proofs
-    def _cone(self, rel: str, seen: dict[str, None]) -> None:
+    def _cone(self, rel: str, seen: dict[str, list]) -> None:
         if rel in seen:
             return
         path = os.path.join(COQ, rel)
         if not os.path.exists(path):
             return
-        seen[rel] = None
+        seen[rel] = []
         src = open(path).read()
         for m in REQUIRE_RE.finditer(src):
             for mod in m.group(1).split():
-                self._cone(mod.replace(".", "/") + ".v", seen)
+                dep = mod.replace(".", "/") + ".v"
+                seen[rel].append(dep)
+                self._cone(dep, seen)
 
     def prove(self, props_rel: str, timeout: int = 900) -> ProofResult:
         """make the .vo of coq/<props_rel> (and its cone); parse Print Assumptions."""
-        seen: dict[str, None] = {}
+        seen: dict[str, list] = {}
         self._cone(props_rel, seen)
         files = list(seen)
         counts = {f: OBLIGATION_RE.findall(open(os.path.join(COQ, f)).read()) for f in files}
@@ -217,8 +219,21 @@ class Ctx:
         if ok:
             discharged = obligations
         else:
-            discharged = sum(len(counts[f]) for f in compiled)
             m = re.search(r'File "\./([^"]+)", line (\d+)', out)
+            bad: set[str] = set()
+            if m:
+                # the failing file and everything that (transitively) imports it did not check
+                bad = {m.group(1)}
+                grew = True
+                while grew:
+                    grew = False
+                    for f, deps in seen.items():
+                        if f not in bad and any(d in bad for d in deps):
+                            bad.add(f)
+                            grew = True
+            else:
+                bad = set(files)
+            discharged = sum(len(counts[f]) for f in compiled if f not in bad)
             if m:
                 failed_file, line = m.group(1), int(m.group(2))
                 src = open(os.path.join(COQ, failed_file)).read().split("\n")
